@@ -1,1 +1,2 @@
-
+//! Drivers for the iroh-dns-server properties (C36..C39); shared helpers in `common`.
+pub mod common;
